@@ -36,12 +36,14 @@ def bb_systems(tier):
         ("A+2B<->C", ["A", "B", "C"], [R([("A", 1), ("B", 2)], [("C", 1)], 0.1, 0.5)], [0.6, {"e0": 0.3, "e1": 0.0}, 0.2]),
         ("0->A,A->0", ["A"], [R([], [("A", 1)], {"e0": 1.5, "e1": 0.0}), R([("A", 1)], [], 0.4)], [0.8]),
         ("A->A+B,env-k", ["A", "B"], [R([("A", 1)], [("A", 1), ("B", 1)], {"e1": 0.9}), R([("B", 2)], [], 0.2)], [0.3, 0.6]),
+        ("A+B<->C+D,2D->A,B->C", ["A", "B", "C", "D"], [R([("A", 1), ("B", 1)], [("C", 1), ("D", 1)], 0.3, 0.2), R([("D", 2)], [("A", 1)], 0.1),
+                                                    R([("B", 1)], [("C", 1)], {"e0": 0.4}, {"e1": 0.3})], [0.5, {"e1": 0.25}, 0.0, 0.75]),
     ]
     bcs = [dict(zip("xyz", c)) for c in itertools.product(["reflecting", "periodical"], repeat=3)]
-    shapes = [(1, 1, 1), (2, 1, 1), (3, 1, 1), (2, 2, 1), (1, 2, 3)]
+    shapes = [(1, 1, 1), (2, 1, 1), (3, 1, 1), (2, 2, 1), (4, 1, 2), (1, 2, 3)]
     if tier == "quick":
         bcs = [bcs[0], bcs[7], bcs[4]]
-        shapes = shapes[:4]
+        shapes = shapes[:5]
     spaces = []
     for (w, h, d) in shapes:
         for bc in bcs:
@@ -496,8 +498,8 @@ def run(ctx):
         core.merge(ctx, r)
         done += job[1] - job[0]
     ex = done == len(_CASES)
-    ctx.subspace("black box: 5 networks (orders 0-3, repeated reactants, zero constants per environment) x %d spaces x chemostat "
-                 "variants x %d seeds; every consecutive sample pair of <=500-event Gillespie runs" % (len(bb) // 5, len(seeds)),
+    ctx.subspace("black box: 6 networks (orders 0-3, repeated reactants, zero constants per environment) x %d spaces x chemostat "
+                 "variants x %d seeds; every consecutive sample pair of <=500-event Gillespie runs" % (len(bb) // 6, len(seeds)),
                  len(bb), len(bb) if ex else 0, exhaustive=ex)
     ctx.subspace("owned draws: all molecular states reachable within depth %d (amount cap 4) of 7 small systems; in every state "
                  "every u of the grid {(k+1/2)/%d} for both draws of the step" % (depth, M), len(od), len(od) if ex else 0, exhaustive=ex)
